@@ -279,6 +279,64 @@ fn load_sources(thorough: bool) -> Vec<Source> {
             v.push(Source { name: format!("synthetic/cmap-whole-font-{}-the-format-4-size-limit", name), data: d, num_glyphs: n, small: false, light: false });
         }
     }
+    // (b6) numberOfHMetrics < numGlyphs with five different advances in front of a three-glyph tail, and characters that are
+    // aliases of one glyph next to each other (c, c+1, c+2 -> g, g+1, g+1) in the BMP and above it: a tail glyph must keep
+    // the shared advance wherever it lands in the subset, and a format 12 output must not fold an alias into a group
+    {
+        use otmodel::tables;
+        let metrics = [(500u16, 0i16), (610, 5), (720, -3), (830, 7), (940, 2)];
+        let map: Vec<(u32, u32)> = vec![(0x41, 1), (0x42, 2), (0x43, 2), (0x61, 5), (0x62, 6), (0x63, 6), (0x71, 7), (0x72, 7), (0x10041, 3), (0x10042, 4), (0x10043, 4), (0x10051, 6), (0x10052, 7), (0x10053, 7)];
+        let extra = [
+            (otmodel::tag(b"cmap"), tables::cmap_table(&[(3, 10, tables::cmap12_subtable(&map))])),
+            (otmodel::tag(b"hhea"), tables::hhea(5)),
+            (otmodel::tag(b"hmtx"), tables::hmtx(&metrics, &[11, 12, 13])),
+        ];
+        let d = tables::minimal_font(8, &[], &extra);
+        v.push(Source { name: "synthetic/short-hmtx-tail-and-aliased-characters".into(), data: d, num_glyphs: 8, small: true, light: false });
+    }
+    // (b7) composite nesting at the limit the outline visitor accepts: glyph k (2..=7) is a composite of glyph k-1 with an
+    // offset, glyph 1 is a triangle, so glyph 7 reaches its outline through six levels of composites; requesting an outer
+    // glyph alone must pull in and renumber the whole chain
+    {
+        use otmodel::glyfenc::{self, Args, Component, Glyph, Pt, SimpleEnc, Xform};
+        use otmodel::tables;
+        let tri = vec![vec![Pt { x: 0, y: 0, on: true }, Pt { x: 100, y: 0, on: true }, Pt { x: 50, y: 80, on: true }]];
+        let mut glyphs: Vec<Glyph> = vec![Glyph::Empty, Glyph::Simple(tri)];
+        for k in 2..=7u16 {
+            glyphs.push(Glyph::Composite { components: vec![Component::new(k - 1, Args::Xy(10 * k as i16, -(k as i16)), Xform::None)], instructions: 0, overlap_compound: false });
+        }
+        let enc: Vec<Vec<u8>> = glyphs.iter().map(|g| glyfenc::encode_glyph(g, &SimpleEnc::default())).collect();
+        let (glyf, loca) = glyfenc::build_glyf_loca(&enc, true, 4);
+        let d = tables::minimal_font(8, &[(0x41, 1), (0x42, 7), (0x43, 4)], &[(otmodel::tag(b"glyf"), glyf), (otmodel::tag(b"loca"), loca)]);
+        v.push(Source { name: "synthetic/composite-chain-six-levels-deep".into(), data: d, num_glyphs: 8, small: true, light: false });
+    }
+    // (b8) CID-keyed CFF with an empty Global Subr INDEX and two Font DICTs of which only the second has local subroutines;
+    // glyphs of both Font DICTs, the second one's drawn through callsubr
+    {
+        use otmodel::cffenc::{build_cff1_parts, Charset, PrivateSpec, SubrIndex};
+        use otmodel::tables;
+        let num = |v: i32| -> u8 { (v + 139) as u8 }; // one-byte Type 2 operand, -107..=107
+        let cs: Vec<Vec<u8>> = vec![
+            vec![14],                                                        // .notdef: endchar
+            vec![num(100), num(100), 21, num(50), 6, num(40), 7, 14],        // FD 0: rmoveto hlineto vlineto endchar
+            vec![num(10), num(10), 21, num(-107), 10, 14],                   // FD 1: rmoveto, callsubr 0, endchar
+            vec![num(20), num(30), 21, num(-106), 10, num(-107), 10, 14],    // FD 1: rmoveto, callsubr 1, callsubr 0, endchar
+            vec![num(5), 22, num(60), num(60), 5, 14],                       // FD 0: hmoveto rlineto endchar
+        ];
+        let subrs = SubrIndex::dense(vec![vec![num(50), num(50), 5, 11], vec![num(-30), num(70), 5, 11]]); // rlineto return
+        let fds = [PrivateSpec::default(), PrivateSpec { subrs: Some(subrs), ..Default::default() }];
+        let fdsel = [0u8, 0, 1, 1, 0];
+        for fmt in [0u8, 3] {
+            let table = build_cff1_parts(&cs, &SubrIndex::empty(), &Charset::Custom { format: 2, ids: (1..cs.len() as u16).collect() }, &fds, Some((&fdsel[..], fmt)));
+            let n = cs.len() as u16;
+            let map: Vec<(u32, u16)> = (1..n).map(|g| (0x40 + g as u32, g)).collect();
+            let mut tb: Vec<(u32, Vec<u8>)> = tables::minimal_tables(n, &map, &[]).into_iter().filter(|x| x.0 != otmodel::tag(b"glyf") && x.0 != otmodel::tag(b"loca") && x.0 != otmodel::tag(b"maxp")).collect();
+            tb.push((otmodel::tag(b"maxp"), tables::maxp_05(n)));
+            tb.push((otmodel::tag(b"CFF "), table));
+            let d = otmodel::sfnt::build(otmodel::sfnt::OTTO, &tb);
+            v.push(Source { name: format!("synthetic/cid-two-font-dicts-only-one-with-local-subrs-fdselect{}", fmt), data: d, num_glyphs: n, small: true, light: false });
+        }
+    }
     // CFF / CFF2 sources from the C18 generator: every path operator incl. the four flex forms, stems and masks, width
     // prefix, every number encoding, local and global subroutines at the bias edges, CID-keyed and FDSelect fonts
     for (name, d) in crate::c18::corpus_for_c07() {
